@@ -189,3 +189,28 @@ Theorem C14_adjusted_limit_cases :
     (configured <= advertised -> adjust_limit configured advertised = configured) /\
     (advertised <= configured -> adjust_limit configured advertised = advertised).
 Proof. exact adjust_limit_cases. Qed.
+
+(* ---- the per-connection in-flight counter (Model/Inflight.v; proofs in Proofs/InflightProofs.v) ---- *)
+From NW Require Import Model.Inflight Proofs.InflightProofs Gen.Headroom.
+Local Open Scope nat_scope.
+
+Theorem C14_inflight_counter_is_the_number_in_flight : forall limit evs,
+  let s := fst (irun true limit iinit evs) in counter s = length (running s).
+Proof. exact live_counter_is_inflight. Qed.
+
+Theorem C14_inflight_refusal_means_full_window : forall limit evs id,
+  let s := fst (irun true limit iinit evs) in
+  istep true limit s (IAdmit id) = IRefused -> limit <= length (running s).
+Proof. exact live_refusal_means_full. Qed.
+
+Theorem C14_inflight_snapshot_drifts_refuted :
+  let s := fst (irun false 3 iinit [IAdmit 1; IAdmit 2; IEnd 1; IEnd 2]) in
+  running s = [] /\ counter s = 1 /\
+  snd (irun false 3 iinit [IAdmit 1; IAdmit 2; IEnd 1; IEnd 2; IAdmit 3; IAdmit 4; IEnd 3; IEnd 4;
+                           IAdmit 5; IAdmit 6; IEnd 5; IEnd 6; IAdmit 7]) = true /\
+  counter (fst (irun false 3 iinit [IAdmit 1; IAdmit 2; IEnd 2; IEnd 1])) = 0.
+Proof. exact snapshot_counter_drifts_refuted. Qed.
+
+(* the completion path of the current source decrements the live counter (translator/headroom.py) *)
+Theorem C14_source_inflight_decrements_live_counter : NW.Gen.Headroom.inflight_decrements_live_counter = true.
+Proof. reflexivity. Qed.
